@@ -284,7 +284,7 @@ def _gen_xform(rng, st, s, name, live):
                 m = len(op['args'][lists[0]][1])
                 for d in lists[1:]:
                     n = dict(dims)[d]
-                    op['args'][d] = ['list', [rng.randrange(n) for _ in range(m)]]
+                    op['args'][d] = ['list', [rng.randrange(max(1, n)) for _ in range(m)]]
     elif name == 'apply':
         if dims:
             ds = rng.sample(dims, min(len(dims), rng.choice([1, 1, 2])))
@@ -391,7 +391,7 @@ def _gen_xform(rng, st, s, name, live):
         if dims:
             d, n = rng.choice(dims)
             a = rng.randrange(0, max(1, n))
-            op['def'] = '%s,%d,%d' % (d, a, rng.randrange(a, n) + 1)
+            op['def'] = '%s,%d,%d' % (d, a, rng.randrange(a, max(a + 1, n)) + 1)
         else:
             op['def'] = 'x,0,1'
     elif name == 'reduce_dim':
